@@ -618,6 +618,143 @@ def correspondence_history(ctx, dis, hist):
     return len(hs), len(distinct), nsteps
 
 
+# --------------------------------------------- user inputs and creation history
+def _same_obj(a, b):
+    """Deep equality of user inputs (dicts of scalars / lists / arrays, arrays)."""
+    if isinstance(a, dict) and isinstance(b, dict):
+        return list(a.keys()) == list(b.keys()) and all(_same_obj(a[k], b[k]) for k in a)
+    if isinstance(a, np.ndarray) or isinstance(b, np.ndarray):
+        return isinstance(a, np.ndarray) and isinstance(b, np.ndarray) and \
+            a.dtype == b.dtype and np.array_equal(a, b)
+    return type(a) is type(b) and a == b
+
+
+def _kind_of(Fo):
+    k = Fo.ftarg.get('kind') if isinstance(Fo.ftarg, dict) else None
+    return k
+
+
+def _filter_name(Fo):
+    f = Fo.ftarg.get('dlf') if isinstance(Fo.ftarg, dict) else None
+    return getattr(f, 'name', f)
+
+
+ALIAS_PLANS = [            # (ft, user ftarg, signals of the instances created in this order)
+    ('dlf', {'pts_per_dec': -1}, [-1, 0]),
+    ('dlf', {'dlf': 'key_81_2009', 'pts_per_dec': -1}, [-1, 0, 1]),
+    ('dlf', {}, [0, -1, 0]),
+    ('fftlog', {'pts_per_dec': 5, 'add_dec': [-2, 1], 'q': 0}, [1, -1]),
+    ('dlf', {'pts_per_dec': 10}, [1, 0, -1]),
+]
+
+
+def run_alias_plan(rng, ft, user_ftarg, signals, via_setter=False):
+    """Several Fourier instances created, in this order, from ONE set of user objects
+    (ftarg dict, time array, input_freq array).  Returns list of problems."""
+    import copy
+    import emg3d
+    t_user = np.logspace(-1, 1, 4) * (1 + rng.randint(0, 3) / 4)
+    inp_user = np.logspace(-2, 1.5, 9) if rng.random() < 0.5 else None
+    ftarg_user = copy.deepcopy(user_ftarg)
+    keep = dict(ftarg=copy.deepcopy(ftarg_user), time=t_user.copy(),
+                inp=None if inp_user is None else inp_user.copy())
+    bad, insts = [], []
+    fmin, fmax = 0.02, 20.0
+    with warnings.catch_warnings():
+        warnings.simplefilter('ignore')
+        for j, sig in enumerate(signals):
+            kw = {} if inp_user is None else {'input_freq': inp_user}
+            if via_setter and j > 0:
+                Fo = emg3d.Fourier(t_user, fmin, fmax, signal=sig, ft=ft, verb=0, **kw)
+                Fo.fourier_arguments(ft, ftarg_user)
+            else:
+                Fo = emg3d.Fourier(t_user, fmin, fmax, signal=sig, ft=ft, ftarg=ftarg_user,
+                                   verb=0, **kw)
+            insts.append((sig, Fo))
+        fd_cache = {}
+        for j, (sig, Fo) in enumerate(insts):
+            fresh = emg3d.Fourier(keep['time'].copy(), fmin, fmax, signal=sig, ft=ft,
+                                  ftarg=copy.deepcopy(keep['ftarg']), verb=0,
+                                  **({} if keep['inp'] is None
+                                     else {'input_freq': keep['inp'].copy()}))
+            tag = f"instance {j} (signal={sig})"
+            if not np.array_equal(Fo.freq_required, fresh.freq_required):
+                bad.append(tag + ': freq_required differs from an instance created from fresh '
+                                 'copies of the same inputs')
+                continue
+            if ft == 'dlf' and (_kind_of(Fo), _filter_name(Fo)) != (_kind_of(fresh),
+                                                                    _filter_name(fresh)):
+                bad.append(f"{tag}: uses filter kind {(_kind_of(Fo), _filter_name(Fo))}, an "
+                           f"instance of its own setting uses {(_kind_of(fresh), _filter_name(fresh))}")
+            fc = Fo.freq_compute
+            fdata = 1.0 / (1.0 + 1j * np.asarray(fresh.freq_compute))
+            try:
+                a = np.asarray(Fo.freq2time(fdata, 900.0))
+                b = np.asarray(fresh.freq2time(fdata.copy(), 900.0))
+                if not np.array_equal(a, b, equal_nan=True):
+                    bad.append(f"{tag}: freq2time differs from the reference transform of its "
+                               f"own setting: {a[:2]} vs {b[:2]}")
+            except Exception as e:      # noqa
+                bad.append(f"{tag}: freq2time raised {type(e).__name__}: {str(e)[:120]}")
+    if not _same_obj(ftarg_user, keep['ftarg']):
+        bad.append(f"the user's ftarg dict was modified: {ftarg_user!r:.200} (was {keep['ftarg']!r})")
+    if not np.array_equal(t_user, keep['time']):
+        bad.append("the user's time array was modified")
+    if inp_user is not None and not np.array_equal(inp_user, keep['inp']):
+        bad.append("the user's input_freq array was modified")
+    kinds = [(sig, _kind_of(Fo)) for sig, Fo in insts] if ft == 'dlf' else []
+    return bad, kinds
+
+
+def alias_brief(ft, user_ftarg, signals, via_setter):
+    return dict(ft=ft, ftarg=user_ftarg, signals_in_creation_order=signals,
+                second_via_fourier_arguments=via_setter,
+                time='logspace(-1,1,4)*c', fmin=0.02, fmax=20.0)
+
+
+def correspondence_aliasing(ctx, dis, hist):
+    rng = ctx.rng
+    plans = [(ft, fa, sg, False) for ft, fa, sg in ALIAS_PLANS]
+    plans += [(ft, fa, sg, True) for ft, fa, sg in ALIAS_PLANS[:2]]
+    for _ in range(12 if ctx.thorough else 2):
+        ft = rng.choice(['dlf', 'dlf', 'fftlog'])
+        fa = ({'pts_per_dec': rng.choice([-1, 5, 10])} if ft == 'dlf'
+              else {'pts_per_dec': rng.choice([4, 6]), 'add_dec': [-2, 1], 'q': 0})
+        if ft == 'dlf' and rng.random() < 0.5:
+            fa['dlf'] = rng.choice(FILTERS)
+        plans.append((ft, fa, [rng.choice([-1, 0, 1]) for _ in range(rng.randint(2, 3))],
+                      rng.random() < 0.3))
+    all_kinds, n = [], 0
+    for ft, fa, sg, vs in plans:
+        bad, kinds = run_alias_plan(rng, ft, fa, sg, vs)
+        n += len(sg)
+        all_kinds += [(s_, k, alias_brief(ft, fa, sg, vs)) for s_, k in kinds]
+        for b in bad:
+            dis.append({'what': 'user inputs / creation history: ' + b, 'signature': ALIAS_HIT,
+                        'case': alias_brief(ft, fa, sg, vs), 'impl': b,
+                        'model': 'inputs untouched; every instance = instance of its own setting'})
+    # the sine / cosine choice against the Coq model of each instance's own setting
+    if all_kinds:
+        txt = (K.CASE_HEADER + "From V Require Import Model.Fourier.\n"
+               "Eval vm_compute in map (fun s => trig_code (dlf_kind s None)) ["
+               + '; '.join(f"({s_})%Z" for s_, _, _ in all_kinds) + "].\n")
+        rc, out = V.coq_eval('c20_kind', txt)
+        if rc != 0:
+            dis.append({'what': 'dlf_kind model evaluation failed', 'case': {}, 'impl': '',
+                        'model': out[-800:]})
+        else:
+            import re
+            codes = [int(x) for x in re.findall(r'-?\d+', V.eval_answers(out)[0])]
+            for (s_, k, br), c in zip(all_kinds, codes):
+                if k != ('sin', 'cos')[c]:
+                    dis.append({'what': "DLF 'kind' of an instance differs from dlf_kind of its "
+                                        'own setting', 'signature': ALIAS_HIT, 'case': br,
+                                'impl': f"signal {s_}: {k}", 'model': ('sin', 'cos')[c]})
+    hist['alias: instances'] = n
+    hist['alias: plans'] = len(plans)
+    return n, len(plans)
+
+
 # --------------------------------------------- PCHIP first interval vs scipy
 def correspondence_pchip(ctx, dis, hist):
     from scipy.interpolate import PchipInterpolator
@@ -708,9 +845,10 @@ def correspondence(ctx):
     n1, d1, samples = correspondence_fourier(ctx, dis, hist)
     n2, d2 = correspondence_pchip(ctx, dis, hist)
     n3, d3, nsteps = correspondence_history(ctx, dis, hist)
+    n4, d4 = correspondence_aliasing(ctx, dis, hist)
     return {
-        'evaluations': n1 + n2 + nsteps,
-        'distinct_nontrivial': d1 + d2 + d3,
+        'evaluations': n1 + n2 + nsteps + n4,
+        'distinct_nontrivial': d1 + d2 + d3 + d4,
         'rule': ("Fourier cases: random log-spaced time vector (2..6 times), signal in {-1,0,1}, "
                  "transform in {dlf lagged, dlf splined, fftlog} with 3 filters / "
                  "random fftlog arguments, band edges either exactly on a required frequency (50%) "
@@ -733,7 +871,13 @@ def correspondence(ctx):
                  "fmin then lower fmax; lower, widen, every_x_freq). Every answer is compared with "
                  "the Coq state machine (frun over the same op list) and with a FRESH instance of "
                  "the current parameters (bitwise); arrays returned earlier must be unmodified and "
-                 "must not share memory with later ones."),
+                 "must not share memory with later ones. User inputs / creation history: 2-3 "
+                 "instances created in a given order (signals from {-1,0,1}) from ONE user ftarg "
+                 "dict, time array and input_freq array (5 fixed plans, 2 with the later instances "
+                 "configured through fourier_arguments, plus random ones): the user objects must be "
+                 "unchanged; every instance must equal (freq_required, filter and kind, freq2time "
+                 "bitwise) an instance created from fresh copies with its own setting; its DLF "
+                 "'kind' is compared with dlf_kind of the Coq model."),
         'samples': samples,
         'traces_validated_against_impl': n1 + n2 + n3,
         'histogram': hist,
@@ -813,6 +957,17 @@ def search(ctx, broken):
                                   "(freq_coarse differs from freq_required)")]
     except Exception as e:      # noqa
         ctx.notes.append('same-length probe crashed: ' + repr(e))
+    # user inputs / creation history (deterministic plans)
+    for ft, fa, sg in ALIAS_PLANS:
+        for vs in (False, True):
+            bad, _k = run_alias_plan(rng, ft, fa, sg, vs)
+            if bad:
+                return [dict(kind='alias', signature=ALIAS_HIT, **alias_brief(ft, fa, sg, vs),
+                             observed='; '.join(bad[:4]),
+                             required="the user's ftarg / time / input_freq objects are unchanged; "
+                                      'every instance equals an instance created from fresh copies '
+                                      'with its own signal (freq2time = reference transform of its '
+                                      'own setting)')]
     # histories on one instance (deterministic first: lower fmax after a wide band)
     for c, plan in enumerate([['fmax'], ['fmin', 'fmax'], ['fmax', 'widen', 'every']]
                              + [None] * (12 if ctx.thorough else 4)):
@@ -834,6 +989,10 @@ def search(ctx, broken):
 
 def replay(ctx, payload):
     fi = payload.get('failing_input')
+    if fi and fi.get('kind') == 'alias':
+        bad, _k = run_alias_plan(ctx.rng, fi['ft'], fi['ftarg'], fi['signals_in_creation_order'],
+                                 fi['second_via_fourier_arguments'])
+        return not bad
     if fi and fi.get('kind') == 'history':
         for plan in (['fmax'], ['fmin', 'fmax'], ['fmax', 'widen', 'every']):
             if history_property(run_history(ctx.rng, plan)):
@@ -849,6 +1008,7 @@ def replay(ctx, payload):
 
 # ---- observation: pass-through chosen by length only ------------------------
 SAMELEN_SIG = "C20: interpolate() selects pass-through by len(freq_coarse) == len(freq_required)"  # historical
+ALIAS_HIT = "result depends on the creation history / user inputs are modified"
 HISTORY_HIT = "interpolate() depends on the history of the Fourier instance"
 SAMELEN_HIT = "data passed through at required frequencies they were not computed for"
 
